@@ -26,7 +26,7 @@ use winter_air::{
     Air, AirContext, Assertion, EvaluationFrame, FieldExtension, ProofOptions, TraceInfo, TransitionConstraintDegree,
 };
 use winter_crypto::hashers::{Blake3_192, Blake3_256, Rp62_248, Rp64_256, Sha3_256};
-use winter_crypto::{DefaultRandomCoin, ElementHasher, Hasher};
+use winter_crypto::{DefaultRandomCoin, ElementHasher, Hasher, RandomCoin, RandomCoinError};
 use winter_math::FieldElement;
 use winter_utils::{Deserializable, Serializable};
 use winterfell::matrix::ColMatrix;
@@ -429,17 +429,53 @@ impl<B: FA> Air for FibAir<B> {
     }
 }
 
-pub struct FibProver<B: FA, H: ElementHasher<BaseField = B>> {
-    options: ProofOptions,
-    _h: PhantomData<(B, H)>,
+thread_local! {
+    /// (number of leading seed elements to replace, their replacement): what a dishonest prover does to
+    /// produce a proof that is consistent with a context it did not compute under
+    static SEED_SWAP: std::cell::RefCell<Option<(usize, Vec<u128>)>> = const { std::cell::RefCell::new(None) };
 }
 
-impl<B: FA, H: ElementHasher<BaseField = B> + Send + Sync> Prover for FibProver<B, H> {
+/// DefaultRandomCoin whose seed's leading (context) elements can be swapped for others
+pub struct SeedSwapCoin<H: ElementHasher>(DefaultRandomCoin<H>);
+
+impl<B: FA, H: ElementHasher<BaseField = B>> RandomCoin for SeedSwapCoin<H> {
+    type BaseField = B;
+    type Hasher = H;
+    fn new(seed: &[B]) -> Self {
+        let swapped: Option<Vec<B>> = SEED_SWAP.with(|s| {
+            s.borrow().as_ref().map(|(n, repl)| {
+                let mut v: Vec<B> = repl.iter().map(|x| B::from_u128(*x)).collect();
+                v.extend_from_slice(&seed[(*n).min(seed.len())..]);
+                v
+            })
+        });
+        SeedSwapCoin(DefaultRandomCoin::new(swapped.as_deref().unwrap_or(seed)))
+    }
+    fn reseed(&mut self, data: H::Digest) {
+        self.0.reseed(data)
+    }
+    fn check_leading_zeros(&self, value: u64) -> u32 {
+        self.0.check_leading_zeros(value)
+    }
+    fn draw<E: FieldElement<BaseField = B>>(&mut self) -> Result<E, RandomCoinError> {
+        self.0.draw()
+    }
+    fn draw_integers(&mut self, num_values: usize, domain_size: usize, nonce: u64) -> Result<Vec<usize>, RandomCoinError> {
+        self.0.draw_integers(num_values, domain_size, nonce)
+    }
+}
+
+pub struct FibProver<B: FA, H: ElementHasher<BaseField = B>, R = DefaultRandomCoin<H>> {
+    options: ProofOptions,
+    _h: PhantomData<(B, H, R)>,
+}
+
+impl<B: FA, H: ElementHasher<BaseField = B> + Send + Sync, R: RandomCoin<BaseField = B, Hasher = H> + Send + Sync> Prover for FibProver<B, H, R> {
     type BaseField = B;
     type Air = FibAir<B>;
     type Trace = TraceTable<B>;
     type HashFn = H;
-    type RandomCoin = DefaultRandomCoin<H>;
+    type RandomCoin = R;
     type TraceLde<E: FieldElement<BaseField = B>> = DefaultTraceLde<E, H>;
     type ConstraintEvaluator<'a, E: FieldElement<BaseField = B>> = DefaultConstraintEvaluator<'a, FibAir<B>, E>;
 
@@ -535,7 +571,7 @@ impl SubCheck for Policy {
         60
     }
     fn rule(&self) -> String {
-        "honest proofs of a 2-column Fibonacci AIR: field x hash from {f62: blake3_256, blake3_192, rp62_248; f64: blake3_256, sha3_256, rp64_256; f128: blake3_256, blake3_192, sha3_256}, extension degree among the supported ones, trace 2^3..2^6, blowup 2..32, queries 1..64 (< LDE size), grinding 0..10, FRI folding 2..16 / remainder 0..255 restricted to well-formed schedules; each proof is verified under MinConjecturedSecurity(s) and MinProvenSecurity(s) for s in {level-1, level, level+1, 0, u32::MAX}, under OptionSets containing / not containing its options (each single-field deviation), and with its context re-issued for another field's modulus and for five byte strings that are no field of the library (own modulus +2 / high bit flipped / one byte longer / one byte shorter, the one-byte modulus 3) under minimum-0, minimum-level and option-set policies: never Ok; non-trivial = the honest proof verifies under a policy that admits it (so every refusal observed is the policy's); distinct by whole case".into()
+        "honest proofs of a 2-column Fibonacci AIR: field x hash from {f62: blake3_256, blake3_192, rp62_248; f64: blake3_256, sha3_256, rp64_256; f128: blake3_256, blake3_192, sha3_256}, extension degree among the supported ones, trace 2^3..2^6, blowup 2..32, queries 1..64 (< LDE size), grinding 0..10, FRI folding 2..16 / remainder 0..255 restricted to well-formed schedules; each proof is verified under MinConjecturedSecurity(s) and MinProvenSecurity(s) for s in {level-1, level, level+1, 0, u32::MAX}, under OptionSets containing / not containing its options (each single-field deviation), and with its context re-issued for another field's modulus and for five byte strings that are no field of the library (own modulus +2 / high bit flipped / one byte longer / one byte shorter, the one-byte modulus 3) under minimum-0, minimum-level and option-set policies, both on the honest proof and on a proof a dishonest prover computed under the forged context's seed: never Ok; non-trivial = the honest proof verifies under a policy that admits it (so every refusal observed is the policy's); distinct by whole case".into()
     }
     fn required_labels(&self, _t: Tier) -> Vec<String> {
         vec![
@@ -746,6 +782,38 @@ fn check_policy<B: FA, H: ElementHasher<BaseField = B> + Send + Sync>(c: &RCase,
         }
     }
     obs.label("wrong-field:tried");
+    // the same forged contexts from a dishonest prover: the proof is computed under the seed the forged context
+    // gives (context elements swapped inside the prover's coin), so everything but the claimed field is consistent
+    {
+        use winter_math::ToElements;
+        let honest_elems: Vec<B> = ToElements::<B>::to_elements(&proof.context);
+        for (what, ctx) in &forged_contexts {
+            // (a claimed modulus wider than the field has no seed encoding over this field: nothing to be consistent with)
+            let Ok(forged_elems) = catch(|| ToElements::<B>::to_elements(ctx).iter().map(|e| e.to_u128()).collect::<Vec<u128>>()) else {
+                obs.label("wrong-field:no-seed-encoding");
+                continue;
+            };
+            SEED_SWAP.with(|s| *s.borrow_mut() = Some((honest_elems.len(), forged_elems)));
+            let dishonest = FibProver::<B, H, SeedSwapCoin<H>> { options: opts.clone(), _h: PhantomData };
+            let r = catch(|| dishonest.prove(fib_trace::<B>(n)));
+            SEED_SWAP.with(|s| *s.borrow_mut() = None);
+            let Ok(Ok(mut p2)) = r else {
+                obs.label("wrong-field:dishonest-prover-failed");
+                continue;
+            };
+            p2.context = ctx.clone();
+            obs.label("wrong-field:dishonest-prover");
+            for acc in [AcceptableOptions::MinConjecturedSecurity(0), AcceptableOptions::MinProvenSecurity(0), AcceptableOptions::OptionSet(vec![opts.clone()])] {
+                obs.comparisons += 1;
+                if let Ok(Ok(())) = ver(p2.clone(), &acc) {
+                    return Err(Fail::new(
+                        "wrong-field-accepted/consistent-transcript",
+                        format!("{c:?}: a proof for {} computed under the seed of a context that claims {what} was accepted with that context", B::NAME),
+                    ));
+                }
+            }
+        }
+    }
     for (what, ctx) in forged_contexts {
         let mut forged = proof.clone();
         forged.context = ctx;
